@@ -14,10 +14,18 @@ TB = "Trusted base: rustc/cargo, the harness (reference models, error models of 
 CHECKS = {
  "C01": ("runtime monitoring: model-based oracle (VecDeque) over every Window observer at every ring phase of every capacity, unique labels; unsafe build with bounds hook; Miri",
          "Exploration with complete enumeration of the finite dimensions: all capacities 0..=254 x every ring phase x every observer (incl. every consumed prefix of both iterators in thorough), rebuild paths (from_parts at every index, serde, From<Vec>/From<Box>), adversarial serialized forms; re-run on the unsafe_performance build with the bounds hook and under Miri for small capacities. Right level: the state space of a Window with labelled elements is finite and small, so observing every reachable (capacity, phase) state decides the property for the code as built.", "§4 C01"),
+ "C04": ("runtime monitoring: exact model oracle (max/min/age of newest extremum/median of the model window, ==) on exhaustive short sequences over tie/signed-zero alphabets and hostile streams for every length; unsafe build with bounds hook; Miri",
+         "Exploration with exhaustive sub-spaces: all 4^9 (4^11) sequences over three 4-symbol alphabets ({-0,+0,1,2}, {0,1,2,3}, {-1,-0,+0,1}) for every length 1..=6 - the selection algorithms only compare, so this enumerates every order/tie/zero-sign pattern around short windows - plus plateau/tie/grid/ramp/mixed-sign streams for every length 1..=254. No tolerance. Re-run on the unsafe_performance build (SMM's raw copy under the bounds hook) and a reduced set under Miri.", "§4 C04"),
  "C08": ("runtime monitoring: metamorphic oracle (no reference) - constant input => constant output without drift; leading copies of the first element => same later outputs; for every method x every length and every indicator x generated configurations",
          "Exploration: every method at every length 1..=254 fed its construction value 2000 (thorough 20000, and 1e6 at six lengths) times with constants from 5e-324 to 1e300 incl. +-0 and non-dyadic values: selections/signals bit-equal to the first output, arithmetic outputs within a fixed number of roundings of the first output at every step (no growth). Prefix invariance with k in {1,2,n-1,n,n+1,3n} leading copies on hostile streams. All 36 indicators x 10 (60) generated configurations (all MA kinds, sources, boundary periods) on constant candles (flat, zero volume, wide) and with leading copies.", "§4 C08"),
  "C09": ("runtime monitoring: differential oracle - every batch/wrapper API against element-wise next (bit equality), random chunkings incl. empty chunks, clone-and-diverge, peek after every step",
          "Exploration: for all 44 methods x 10 (40) lengths and all 36 indicators x 6 (40) configurations: over, Sequence::call, apply, Sequence::apply, new_over, new_apply, into_fn, new_fn, with_history (get/iter/into_iter), with_last_value, Buffered::get, IndicatorConfig::over/init_fn, IndicatorInstance::over/into_fn, the Dyn over/next, 6 (40) random chunkings each, clones taken at 9 points while the original is driven elsewhere, peek() == last output after every step. Bit equality, one output per input. Run in the checked and the release profile.", "§4 C09"),
+ "C10": ("runtime monitoring: exhaustive enumeration of parameter values with a panic oracle (catch_unwind) in two profiles (overflow/debug assertions on, and plain release), then hostile valid streams on every accepted instance",
+         "Exploration, exhaustive on the finite parameter axes: all 256 values of every single length parameter of every method and of every PeriodType field of every indicator, all 256^2 pairs for TSI and the reversal detectors (thorough; boundary-complete subset in quick), Conv weight lengths 0..=300, Renko sizes over specials, every float field over NaN/inf/0/tiny/huge/negative, every MA field over 15 kinds x boundary periods, 2000 (50000) random joint configurations per indicator, 20k (400k) arbitrary strings into the parsers. Outcome must be Ok or Err, Err where validate() is false or the length is documented too small; accepted instances must survive flat / zero-volume / grid / trending / 700-step monotone streams. Both the checked and the release profile are run because they differ exactly here.", "§4 C10"),
+ "C11": ("runtime monitoring: interface-contract oracle over every indicator: result shape at every step, names, static-vs-dyn bit equality, set() round trip through the serialized configuration, unknown names / unparsable text, documented defaults parsed from the field docs",
+         "Exploration: 36 indicators (+Example) x 12 (100) generated configurations x 300 (600) candles for shape/name/dyn equivalence; every public field (discovered from the serialized configuration) x 40 (2000) fresh values: set() must change exactly that key to exactly the parsed value; ~20 unparsable texts per field and ~150 (700) unknown names must return Err and leave the configuration unchanged; default configurations validate, initialise and equal the defaults stated in the field documentation.", "§4 C11"),
+ "C13": ("runtime monitoring: differential oracle original-vs-restored (serde through serde_json::Value and JSON text) at many snapshot points, plus adversarial mutation of every embedded window",
+         "Exploration: every method x 12 (254) lengths x snapshot points after 0..=3n steps (every ring phase for small n, windowless ADI/Integral included) x continuation of 2n+50 steps bit-identical, re-serialization equality, text round trip; every indicator x 6 (60) configurations x 7 snapshot points; configuration round trips. Every {buf,index} object embedded in any method/indicator state is mutated 16 ways (index = len, len+1, MAX, >MAX; buffers of MAX, MAX+1, 1000 elements; wrong types; missing fields): malformed => Err, never a panic. Also run on the unsafe_performance build with the bounds hook.", "§4 C13"),
  "C14": ("runtime monitoring: definitional reference detectors vs the real ones, exhaustive short sequences over small alphabets + hostile long streams",
          "Exploration: crossing detectors on all sequences of length 8 (10) over the four difference classes {-1,-0,+0,1} (complete for the two-step rule) plus random touch-heavy pairs of streams; reversal detectors on all sequences of length 9 (11) over 3-symbol alphabets for small (left,right), 400 stratified (thorough: all 32131) pairs x 800-step plateau/tie streams, and 1e5..1e6-step streams that cross the PeriodType capacity thousands of times. Oracle is the definition evaluated from scratch on the history.", "§4 C14"),
  "C16": ("runtime monitoring: exhaustive enumeration of the finite Action algebra against its laws (513 actions, 513^2 pairs, 513^3 triples, all i8, all 2^32 f32 in thorough)",
